@@ -247,8 +247,16 @@ def run(ctx):
         dist["jack"] = dist.get("jack", 0) + 1
     for i in range(nb // 2):
         n = rng.choice([1, 2, 3, 4, 5, 8, 21, 50])
-        kind = rng.choice(["spread", "ties", "outlier"])
+        kind = rng.choice(["spread", "ties", "outlier", "majority"])
+        if i < 2:
+            kind, n = "majority", (5, 21)[i]     # every run: a column whose median absolute deviation is exactly zero
         x = [rng.randint(-64, 64) / 16.0 for _ in range(n)]
+        if kind == "majority":
+            # more than half of the rows tie at one value (a converged / symmetry-zero observable), the others are away from it
+            v = rng.choice([0.0, 1.5, -74.25])
+            x = [v] * n
+            for j in rng.sample(range(n), max(1, (n - 1) // 3) if n > 2 else 0):
+                x[j] = v + rng.choice([-1, 1]) * 2.0 ** rng.randint(-12, 6)
         if kind == "ties":
             x = [rng.choice([1.0, 1.0, 2.0, 2.5]) for _ in range(n)]
         if kind == "outlier":
